@@ -57,6 +57,17 @@ func split(ctx context.Context, r io.Reader) (<-chan string, <-chan error) {
 	return blockc, errc
 }
 
+// sendErr hands err to a stage's error channel. handlePipelineErr receives at most one
+// value per channel, so a plain send could block forever once the buffer is taken;
+// after the pipeline's context is done (the call has returned or was cancelled) the
+// error is dropped instead.
+func sendErr(ctx context.Context, errc chan<- error, err error) {
+	select {
+	case errc <- err:
+	case <-ctx.Done():
+	}
+}
+
 func isRootBlockBeginning(l string) bool {
 	if len(l) == 0 {
 		return false
